@@ -754,7 +754,7 @@ def obligations(tier: str) -> List[Ob]:
             k3_chain_cases.append((form, 1, LINKS, ('rel', 'ref', 'refq', 'rels', 'plain'), ('setup', 'assert')))
         else:
             k3_chain_cases.append((form, 1, LINKS, USES, L.PHASES))
-            k3_chain_cases.append((form, 2, LINKS, USES, ('before-assert', 'cleanup')))
+            k3_chain_cases.append((form, 2, LINKS, USES, L.PHASES))
     for form, d, links, uses, phases in k3_chain_cases:
         obs.append(Ob(
             name='K3:chain:%s:d%d' % (form, d), fn='k3_chain', case=dict(form=form, depth=d, links=links, uses=uses, phases=phases),
@@ -812,7 +812,7 @@ def obligations(tier: str) -> List[Ob]:
             k5_cases.append((1, LINKS, ('rel', 'ref', 'refq', 'rels', 'plain'), ('setup', 'assert')))
         else:
             k5_cases.append((1, LINKS, USES, L.PHASES))
-            k5_cases.append((2, MID_LINKS_QUICK, USES, ('setup', 'assert', 'cleanup')))
+            k5_cases.append((2, MID_LINKS_QUICK, USES, L.PHASES))
         for d, links, uses, phases in k5_cases:
             phs = [ph for ph in phases if ph in READ_PHASES[form]]
             obs.append(Ob(
